@@ -50,7 +50,7 @@ def gen_descs(g, tier):
             descs.append(C.J(d))
         # product() of a measure (cached / not) and of a factor
         for cached in (False, True):
-            descs.append(C.J(dict(scn="uproduct", cached=cached, u=C.gen_measure(g, R1, D), xs=g.mat(3, D))))
+            descs.append(C.J(dict(scn="uproduct", cached=cached, u=C.gen_measure(g, R1, D, diag=(g.randint(0, 2) == 0)), xs=g.mat(3, D))))
         descs.append(C.J(dict(scn="fproduct", f=C.gen_factor(g, g.choice(KINDS[:4]), R2, D), xs=g.mat(3, D))))
     return descs
 
@@ -166,6 +166,9 @@ def run_impl(d):
         er = np.asarray(r.evaluate_ln(xs))
         if not gtlib.close(er, eu.sum(axis=0, keepdims=True)):
             fails.append(dict(what="product-of-components", site="measure.product", key=None))
+        # __call__ is the function value itself: u(x) = exp(evaluate_ln(x))
+        if not gtlib.close(np.asarray(u(xs)), np.exp(eu)) or not gtlib.close(np.asarray(r(xs)), np.exp(er)):
+            fails.append(dict(what="__call__ != exp(evaluate_ln)", site="measure.__call__", key=None))
         if C.snap_equal(su, C.snapshot(u)) is not None:
             fails.append(dict(what="operand-mutated", site="measure.product", key=None))
         ob.add("evaluate_ln", er)
